@@ -482,6 +482,60 @@ def validate_trace(module, cfg, trace_path, tag, timeout=1800, heap='4g'):
     return r.ok, matched, r
 
 
+
+def suite_flow(v, parts=('bb', 'crc')):
+    """E2 with the repository's own test programs as the workload: the programs are linked with ld --wrap around the
+    byte-buffer / checksum functions (harness/suite/wrap.c), run, and what they recorded is validated by TLC."""
+    import glob
+    lock = os.path.join(BUILD, '.lock')
+    r = subprocess.run('flock %s make -s -C %s -j%d suite' % (lock, os.path.join(ROOT, 'harness'), NCPU), shell=True,
+                       stdout=subprocess.PIPE, stderr=subprocess.STDOUT, text=True)
+    if r.returncode != 0:
+        print(r.stdout[-3000:])
+        die('build of the wrapped test programs failed')
+    out = outdir(v.pid)
+    base = os.path.join(out, 'suite-trace')
+    for suffix in ('.bb', '.crc'):
+        if os.path.exists(base + suffix):
+            os.remove(base + suffix)
+    progs = sorted(p for p in glob.glob(os.path.join(BUILD, 'suite', 't-*')) if not p.endswith('.d'))
+    tap_ok = 0
+    for p in progs:
+        env = dict(os.environ, UFW_SUITE_TRACE=base, ASAN_OPTIONS='detect_leaks=0')
+        try:
+            r = subprocess.run([p], env=env, stdout=subprocess.PIPE, stderr=subprocess.STDOUT, text=True, errors='replace', timeout=1800)
+        except subprocess.TimeoutExpired:
+            die('test program %s did not finish' % p)
+        bad = [ln for ln in r.stdout.split('\n') if ln.startswith('not ok')]
+        tap_ok += sum(1 for ln in r.stdout.split('\n') if ln.startswith('ok'))
+        if r.returncode != 0 or bad:
+            v.problem('SUITE/' + os.path.basename(p), ['#suite ' + os.path.basename(p)],
+                      'test program fails when linked against the recording wrappers: rc=%d %s' % (r.returncode, bad[:2]))
+    specs = dict(bb=('ByteBufferSuite.tla', 'ByteBufferSuite.cfg'), crc=('Crc16Trace.tla', 'Crc16Trace.cfg'))
+    counts = {}
+    for part in parts:
+        mod, cfg = specs[part]
+        path = base + '.' + part
+        counts[part] = sum(1 for ln in open(path) if '"adopt"' not in ln and '"op":"@"' not in ln and '"skipped"' not in ln)
+        ok, matched, r = validate_trace(mod, cfg, path, 'suite')
+        if not ok:
+            ok, matched, r = validate_trace(mod, cfg, path, 'suite')
+        v.add_tlc(r)
+        if not ok:
+            if r.rc not in (0, 12, 13) and 'ostcondition' not in (r.violation or '') and 'nvariant' not in (r.violation or '') and 'roperty' not in (r.violation or ''):
+                print(r.violation or r.raw_tail)
+                die('trace validation of %s failed to run (rc=%s)' % (path, r.rc))
+            lines = open(path).read().split('\n')
+            bad = min(matched, len(lines) - 1)
+            op = json.loads(lines[bad])['op'] if lines[bad].startswith('{') else '-'
+            v.problem('SUITE-TRACE/' + op, ['#trace %s %s' % (mod, cfg)] + [ln for ln in lines[max(0, bad - 1):bad + 1] if ln],
+                      'specification rejects an event recorded from the repository\'s own tests: %s %s' % (lines[bad][:300], (r.violation or '').split('\n')[0]))
+    skipped = sum(json.loads(ln)['a'][0] for ln in open(base + '.bb') if '"skipped"' in ln)
+    v.cov['traces_validated_against_impl'] += len(progs)
+    v.cov['evaluations'] += sum(counts.values())
+    v.notes['suite'] = dict(programs=len(progs), tap_assertions_passing=tap_ok, recorded_calls=counts, unrecorded_calls_on_malformed_or_large_objects=skipped)
+    return len(progs), tap_ok, counts, skipped
+
 # --------------------------------------------------------------------------- findings, evidence, verdict
 
 def known_findings(pid):
